@@ -3,8 +3,11 @@ package main
 import (
 	"context"
 	"fmt"
+	"runtime"
 	"sort"
 	"strings"
+	"sync"
+	"sync/atomic"
 	"time"
 
 	"github.com/prometheus/prometheus/model/labels"
@@ -34,6 +37,15 @@ import (
 //	key.pair.range RANGE | RANGE      (same for labels, series; key.pair.cross LABELS | SERIES)   -> <hex key A> <hex key B> | panic | invalid
 //	key.tenant <tenant>                                          -> ok | invalid
 //	key.should <r|l|s> <dedup> <#storeMatchers> <disabled>       -> 0 | 1                      shouldCache
+//
+//	o.key.conc <r|s> <ms> REQ | REQ | …   (oracle only)  -> ok <#keys> | mixup | invalid
+//	       the key is a function of the request, also under concurrency: ONE generator (as a frontend has: the value
+//	       returned by newThanosCacheKeyGenerator is shared by all in-flight requests) keys every request once
+//	       sequentially; then one goroutine per request (GOMAXPROCS >= 2) keys its own request over and over for <ms>
+//	       milliseconds and compares.  Classes:
+//	concurrent-key-mixup               a goroutine got, byte for byte, the sequential key of ANOTHER goroutine's request
+//	key-not-a-function-of-the-request  a key differs from the sequential key of the same request in any other way
+//	                                   (also: the shared generator and a fresh one disagree sequentially)
 //
 // Oracle on pairs (independent of the model): two requests that differ in tenant or in a result-changing parameter
 // (range: query, step, resolution bucket, shard info, lookback, engine, partial response, replica label set, analyze;
@@ -350,11 +362,136 @@ func pairAnswer(ka, kb string) string {
 	return ka + " " + kb
 }
 
+// execC43Conc: see o.key.conc in the header.
+func execC43Conc(c *hlib.Ctx, tok []string) string {
+	if len(tok) < 4 || (tok[1] != "r" && tok[1] != "s") {
+		return "bad-op"
+	}
+	ms, ok := atoi64(tok[2])
+	if !ok || ms <= 0 || ms > 5000 {
+		return "bad-op"
+	}
+	type job struct {
+		user string
+		req  queryrange.Request
+		want string
+	}
+	var jobs []job
+	rest := tok[3:]
+	for len(rest) > 0 {
+		one := rest
+		if a, b, ok := splitBar(rest); ok {
+			one, rest = a, b
+		} else {
+			rest = nil
+		}
+		var tn string
+		var req queryrange.Request
+		if tok[1] == "r" {
+			r, ok := parseC43Range(one)
+			if !ok {
+				return "bad-op"
+			}
+			tn, req = r.tenant, r.req
+		} else {
+			m, ok := parseC43Series(one)
+			if !ok {
+				return "bad-op"
+			}
+			tn, req = m.tenant, m.req
+		}
+		ids, err := tenant.TenantIDs(user.InjectOrgID(context.Background(), tn))
+		if err != nil || !queryfrontend.VerifShouldCache(req) {
+			return "invalid"
+		}
+		jobs = append(jobs, job{user: tenant.JoinTenantIDs(ids), req: req})
+	}
+	if len(jobs) < 2 || len(jobs) > 64 {
+		return "bad-op"
+	}
+	if runtime.GOMAXPROCS(0) < 2 {
+		defer runtime.GOMAXPROCS(runtime.GOMAXPROCS(2))
+		c.Count("conc:gomaxprocs-raised")
+	}
+	shared := queryfrontend.VerifCacheKeyGenerator() // the one generator of a frontend
+	owner := map[string]int{}
+	for i := range jobs {
+		jobs[i].want = shared.GenerateCacheKey(jobs[i].user, jobs[i].req)
+		if fresh := queryfrontend.VerifCacheKeyGenerator().GenerateCacheKey(jobs[i].user, jobs[i].req); fresh != jobs[i].want {
+			c.Violation("key-not-a-function-of-the-request", fmt.Sprintf("request %d: shared generator %q, fresh generator %q", i, clip(jobs[i].want), clip(fresh)))
+		}
+		if _, dup := owner[jobs[i].want]; !dup {
+			owner[jobs[i].want] = i
+		}
+	}
+	type bad struct {
+		i    int
+		got  string
+		iter int64
+	}
+	var (
+		wg    sync.WaitGroup
+		stop  atomic.Bool
+		total atomic.Int64
+		mu    sync.Mutex
+		bads  []bad
+	)
+	start := make(chan struct{})
+	for i := range jobs {
+		wg.Add(1)
+		go func(i int) {
+			defer wg.Done()
+			j := jobs[i]
+			<-start
+			var n int64
+			for !stop.Load() {
+				got := shared.GenerateCacheKey(j.user, j.req)
+				n++
+				if got != j.want {
+					mu.Lock()
+					if len(bads) < 64 {
+						bads = append(bads, bad{i, got, n})
+					}
+					mu.Unlock()
+				}
+			}
+			total.Add(n)
+		}(i)
+	}
+	close(start)
+	time.Sleep(time.Duration(ms) * time.Millisecond)
+	stop.Store(true)
+	wg.Wait()
+	c.Count("conc:keys:" + bucket(int(total.Load())))
+	c.Count(fmt.Sprintf("conc:goroutines:%s", bucket(len(jobs))))
+	if len(bads) == 0 {
+		return "ok"
+	}
+	seen := map[string]bool{}
+	for _, b := range bads {
+		class := "key-not-a-function-of-the-request"
+		what := fmt.Sprintf("goroutine %d, call %d: got %q, sequentially %q", b.i, b.iter, clip(b.got), clip(jobs[b.i].want))
+		if o, ok := owner[b.got]; ok && o != b.i {
+			class = "concurrent-key-mixup"
+			what = fmt.Sprintf("goroutine %d, call %d: got the key of goroutine %d's request %q instead of %q (one generator shared by %d goroutines)",
+				b.i, b.iter, o, clip(b.got), clip(jobs[b.i].want), len(jobs))
+		}
+		if seen[class] {
+			continue
+		}
+		seen[class] = true
+		c.Violation(class, what)
+	}
+	return "mixup"
+}
+
 func execC43(c *hlib.Ctx, tok []string) string {
 	if len(tok) == 0 {
 		return "bad-op"
 	}
 	switch tok[0] {
+	case "o.key.conc":
+		return execC43Conc(c, tok)
 	case "key.range":
 		r, ok := parseC43Range(tok[1:])
 		if !ok {
@@ -808,6 +945,49 @@ func genC43(c *hlib.Ctx) {
 				}
 			}
 		}
+	}
+	// concurrency: one shared generator, G goroutines with their own requests (replica label sets of 0..8 labels, other
+	// fields shared or not); a few hundred ms in the quick tier, ~10 s in the thorough one
+	nconc, ms := 6, 60
+	if c.Tier != "quick" {
+		nconc, ms = 40, 250
+	}
+	for i := 0; i < nconc; i++ {
+		G := r.Range(2, 8)
+		series := r.Chance(1, 4)
+		base := genRange(r)
+		base.tenant = c43Tenants[1+r.Intn(4)]
+		bm := genMeta(r)
+		bm.tenant = base.tenant
+		var parts []string
+		for g := 0; g < G; g++ {
+			var repl []string
+			for k := r.Range(1, 8); k > 0; k-- {
+				repl = append(repl, fmt.Sprintf("%s%d", []string{"replica", "pod", "r", "prometheus_replica"}[r.Intn(4)], r.Intn(6)+10*g))
+			}
+			if r.Chance(1, 10) {
+				repl = nil
+			}
+			if series {
+				m := bm
+				m.replicas = repl
+				parts = append(parts, m.encSeries())
+			} else {
+				x := base
+				if r.Chance(1, 3) {
+					x = genRange(r)
+					x.tenant = base.tenant
+				}
+				x.replicas = repl
+				parts = append(parts, x.enc())
+			}
+		}
+		kind := "r"
+		if series {
+			kind = "s"
+		}
+		c.Count("conc:stream:" + kind)
+		c.Do(fmt.Sprintf("o.key.conc %s %d %s", kind, ms, strings.Join(parts, " | ")), true)
 	}
 	// malformed: zero split interval (a request that never passed the split middleware) divides by zero
 	for i := 0; i < c.N(20, 200); i++ {
